@@ -40,6 +40,36 @@ add("C09",
     "reproduces the observation (counted in the evidence).",
     "machine-checked proof in Coq (refinement to an abstract spec + invariants) + per-step refinement correspondence")
 
+
+add("C02",
+    "Coq theorems: in every valid inventory each path of each committed version resolves to a content path of a version <= V "
+    "carrying the path's digest, for every candidate the hash-set iteration may pick (resolution_total); after any further "
+    "operations except purge a committed version keeps its listing and its candidate set (committed_versions_stable, by induction "
+    "over histories through the Extends/Grows lineage invariants); a commit installs exactly the staged state. Correspondence: "
+    "per-step refinement. Search: after EVERY step all versions of all committed objects are re-read (listing and bytes) and "
+    "compared with the state staged at commit time and the ingested bytes.",
+    "Trusted as C01, plus digest injectivity (equal digest = equal bytes). Byte streaming itself (File::open + io::copy) is exercised, not modelled.",
+    "machine-checked proof in Coq (lineage invariant by induction over histories) + per-step refinement + read-back oracle")
+
+add("C08",
+    "Coq theorems over a multi-object repository (gmap id -> life cycle): operations on one id leave every other id's state "
+    "untouched; new/cp/mv/rm/reset/reset-all never change the committed inventory; read answers are functions of the committed "
+    "inventory (identical with or without staged changes); reset-all after any staging operations restores the exact previous state; "
+    "purge resets exactly the named object. Search (byte level): snapshots of the storage root and every object's staged directory "
+    "around every step, the full read API (listing, every file, log, diffs, validate) around every staging step, exact expected "
+    "trees (subtree removed, emptied ancestors pruned) after reset-all and purge.",
+    "The byte-level half (no write outside the footprint) is decided by snapshots on executed histories, and for system calls by C03/C12's traces; the theorems are at the inventory level.",
+    "machine-checked proof in Coq (frame lemmas) + snapshot/read-API differential on histories")
+
+add("C18",
+    "Coq theorems (association-list states with NoDup keys, abstract path/digest types): full characterisation of Version::diff "
+    "(Added/Modified/Deleted/Renamed), diff-apply yields the right state, self-diff empty, show = diff with predecessor, order "
+    "independence under all permutations of both hash-map iterations, file log = versions where the path's entry changes, "
+    "last_update = start of the maximal run, log metadata. Correspondence: all ordered version pairs, diff_staged, versions, "
+    "file_versions, last_update of generated objects compared inside Coq; model-free oracle from the driver's own states.",
+    "Trusted: Coq kernel, Model/Diff.v, harness, driver's numbering of paths/digests. CLI rendering is C20's.",
+    "machine-checked proof in Coq (characterisation lemmas, permutation invariance) + differential correspondence")
+
 NOT_APPLICABLE = []  # filled below for every property without a check yet
 
 ALL = ["C%02d" % i for i in range(1, 21)]
